@@ -18,6 +18,8 @@ from __future__ import annotations
 
 import random
 
+from antismash.common.hmm_rule_parser import cluster_prediction as CP
+from antismash.common.hmm_rule_parser.structures import DynamicHit, DynamicProfile, Multipliers
 from antismash.common.hmmscan_refinement import HMMResult
 from antismash.common.secmet.test.helpers import DummyCDS, DummyRecord
 
@@ -223,13 +225,13 @@ def gen_pfam(rng, world) -> dict:
             end = min(plen, pos + width)
             profile = rng.choice(PFAM_PROFILES)[0]
             # scores and e-values around the module thresholds (0 and 0.01), including both boundaries
-            score = rng.choice([-3.5, 0.0, 0.0, 0.5, 12.0, 31.5, 88.0, 140.25])
-            evalue = rng.choice([1e-30, 3.2e-9, 0.0099, 0.01, 0.01, 0.011, 0.5])
+            score = rng.choice([-3.5, 0.0, 0.0, 0.5, 12.0, 31.537219, 88.1, 140.2578125])
+            evalue = rng.choice([1.2345678e-30, 3.2170093e-9, 0.0099, 0.01, 0.01, 0.011, 0.5123])
             hits.append([profile, pos, end, score, evalue])
             if rng.random() < 0.25:
                 # an overlapping rival
-                hits.append([rng.choice(PFAM_PROFILES)[0], pos + 2, min(plen, end + 3), rng.choice([5.0, 60.0, 200.0]),
-                             rng.choice([1e-12, 0.003])])
+                hits.append([rng.choice(PFAM_PROFILES)[0], pos + 2, min(plen, end + 3), rng.choice([5.0, 60.3, 200.0]),
+                             rng.choice([1.00007e-12, 0.003])])
             pos = end + rng.choice([0, 3, 20])
         if hits:
             out[name] = hits
@@ -323,9 +325,20 @@ def build_ruleset(case, strictness: str, multipliers=None):
     if not rules:
         return None
     world = dict(case["world"], rules=rules)
-    if multipliers is not None:
-        world["multipliers"] = list(multipliers)
-    return W.build_ruleset(world)
+    parsed = W.parse_rules(world)
+    hits = world["hits"]
+
+    def make(profile):
+        def detect(_record, _hmmer_hits, profile=profile):
+            # scores and e-values with many significant digits: a save that rounds or truncates shows
+            return {g: [DynamicHit(g, profile, bitscore=hs[profile] + 0.123456789,
+                                   evalue=1.2345678912e-5 / (1 + hs[profile]))]
+                    for g, hs in hits.items() if profile in hs}
+        return DynamicProfile(profile, "generated", detect)
+    mult = multipliers if multipliers is not None else world.get("multipliers", [1.0, 1.0])
+    return CP.Ruleset(tuple(parsed), {}, "", {"cat"}, "verif-tool",
+                      multipliers=Multipliers(cutoff=mult[0], neighbourhood=mult[1]),
+                      dynamic_profiles={p: make(p) for p in W.PROFILES}, equivalence_groups=[])
 
 
 def sideload_document(case) -> dict:
@@ -346,14 +359,14 @@ def make_domain(token: str, index: int, count: int, plen: int) -> HMMResult:
     end = start + step - 2
     internal = None
     if isinstance(structure, tuple):
-        internal = [HMMResult(sub, start + 1 + k, end - 1, 1e-5, 50.) for k, sub in enumerate(structure[1])]
+        internal = [HMMResult(sub, start + 1 + k, end - 1, 1.0301e-5, 50.0625 + k) for k, sub in enumerate(structure[1])]
     elif structure:
         inner = None
         for depth, sub in reversed(list(enumerate(structure))):
-            inner = HMMResult(sub, start + 1 + depth, end - 1 - depth, 1e-5, 50. - depth,
+            inner = HMMResult(sub, start + 1 + depth, end - 1 - depth, 1.0301e-5 * (depth + 1), 50.0625 - depth,
                               internal_hits=[inner] if inner is not None else None)
         internal = [inner]
-    return HMMResult(name, start, end, 10 ** -(10 + index), 100.5 + index, internal_hits=internal)
+    return HMMResult(name, start, end, 1.2345678e-10 / (index + 1), 100.517 + index, internal_hits=internal)
 
 
 def domain_hits(case) -> tuple[dict, dict]:
@@ -364,5 +377,5 @@ def domain_hits(case) -> tuple[dict, dict]:
         if info["tokens"]:
             domains[name] = [make_domain(t, i, len(info["tokens"]), plen) for i, t in enumerate(info["tokens"])]
         if info["motifs"]:
-            motifs[name] = [HMMResult(m, s, e, 0.01 * (k + 1), 7.25 + k) for k, (m, s, e) in enumerate(info["motifs"])]
+            motifs[name] = [HMMResult(m, s, e, 0.0123456 * (k + 1), 7.2519 + k) for k, (m, s, e) in enumerate(info["motifs"])]
     return domains, motifs
